@@ -1095,23 +1095,25 @@ fn w5_clouds(r: &mut Report, isos: &[I3]) {
                 r.check(cp3(&bb.mins, &lo) && cp3(&bb.maxs, &hi), "PointCloud::aabb of the moved cloud is the box of the moved points", d); }
             let mut back = pc.clone(); back.transform(&ti);
             r.check(cloud_is(&back, &pts, on, oc, &id), "PointCloud: T then T^-1 restores points and normals", d);
+            let mut tw = mk(); tw.transform(t); tw.transform(t);
+            r.check(cloud_is(&tw, &pts, on, oc, &(t * t)), "PointCloud: transforming twice by T equals transforming by the composition T.T", d);
             let mut seq = mk(); seq.transform(s); seq.transform(t); let mut comp = mk(); comp.transform(&(t * s));
             r.check(seq.len() == comp.len() && seq.points().iter().zip(comp.points().iter()).all(|(x, y)| cp3(x, y)) && match (seq.normals(), comp.normals()) { (None, None) => true, (Some(a), Some(b)) => a.len() == b.len() && a.iter().zip(b.iter()).all(|(x, y)| cv3(x, y)), _ => false }, "PointCloud: transforming by a composition equals transforming in sequence", d);
             if n == 0 || n > 65 { continue; }
             // merge: moving the merged cloud == merging the moved clouds; the same for append, sub-selection and the conversions
             let k = n / 2 + 1; let k = k.min(n);
             let part = |a: usize, b: usize| PointCloud::try_new(pts[a..b].to_vec(), if has_n { Some(ns[a..b].to_vec()) } else { None }, if has_c { Some(cs[a..b].to_vec()) } else { None }).unwrap();
-            let mut m1 = part(0, k); let ok1 = m1.merge(part(k, n)).is_ok(); m1.transform(t);
+            let mut m0 = part(0, k); let ok1 = m0.merge(part(k, n)).is_ok(); let mut m1 = m0.clone(); m1.transform(t);
             let mut m2 = part(0, k); m2.transform(t); let mut m2b = part(k, n); m2b.transform(t); let ok2 = m2.merge(m2b).is_ok();
-            r.check(ok1 && ok2 && cloud_is(&m1, &pts, on, oc, t) && cloud_is(&m2, &pts, on, oc, t), "PointCloud::merge commutes with T (merge then move == move both then merge: points move, normals only rotate, order and colours kept)", d);
-            let mut a1 = PointCloud::empty(has_n, has_c); let mut a2 = PointCloud::empty(has_n, has_c); a2.transform(t);
+            r.check(ok1 && ok2 && m0.len() == n && cloud_is(&m1, m0.points(), m0.normals(), m0.colors(), t) && cloud_is(&m2, m0.points(), m0.normals(), m0.colors(), t), "PointCloud::merge commutes with T (merge then move == move both then merge: points move, normals only rotate, colours kept)", d);
+            let mut a0 = PointCloud::empty(has_n, has_c); let mut a2 = PointCloud::empty(has_n, has_c); a2.transform(t);
             let mut ok = a2.is_empty();
             for j in 0..n {
-                ok &= a1.append(pts[j], if has_n { Some(ns[j]) } else { None }, if has_c { Some(cs[j]) } else { None }).is_ok();
+                ok &= a0.append(pts[j], if has_n { Some(ns[j]) } else { None }, if has_c { Some(cs[j]) } else { None }).is_ok();
                 ok &= a2.append(t * pts[j], if has_n { Some(t * ns[j]) } else { None }, if has_c { Some(cs[j]) } else { None }).is_ok();
             }
-            a1.transform(t);
-            r.check(ok && cloud_is(&a1, &pts, on, oc, t) && cloud_is(&a2, &pts, on, oc, t), "PointCloud::empty / append commute with T (append then move == move then append the moved points)", d);
+            let mut a1 = a0.clone(); a1.transform(t);
+            r.check(ok && a0.len() == n && cloud_is(&a1, a0.points(), a0.normals(), a0.colors(), t) && cloud_is(&a2, a0.points(), a0.normals(), a0.colors(), t), "PointCloud::empty / append commute with T (append then move == move then append the moved points)", d);
             let idx: Vec<usize> = (0..n).rev().step_by(2).collect();
             let sel = pc.create_from_indices(&idx); let mut sel0 = mk().create_from_indices(&idx); sel0.transform(t);
             r.check(sel.len() == idx.len() && sel.points().iter().zip(sel0.points().iter()).all(|(x, y)| cp3(x, y)) && sel.normals().is_some() == has_n && sel.normals().map_or(true, |a| a.iter().zip(sel0.normals().unwrap().iter()).all(|(x, y)| cv3(x, y))) && sel.colors() == sel0.colors(), "PointCloud::create_from_indices commutes with T", d);
@@ -1121,11 +1123,13 @@ fn w5_clouds(r: &mut Report, isos: &[I3]) {
                 let c1 = PointCloud::from(&moved[..]);
                 let mp: Vec<Point3> = pts.iter().map(|p| t * p).collect(); let mn: Vec<UnitVec3> = ns.iter().map(|n| t * n).collect();
                 let c2 = PointCloud::try_from((&mp[..], &mn[..]));
-                r.check(cloud_is(&c1, &pts, on, None, t) && c2.as_ref().map_or(false, |c| cloud_is(c, &pts, on, None, t)), "PointCloud built from surface points / (points, normals) given in another frame is the moved cloud", d);
+                let c0 = PointCloud::from(&sps[..]); let c00 = PointCloud::try_from((&pts[..], &ns[..])).unwrap();
+                r.check(cloud_is(&c1, c0.points(), c0.normals(), c0.colors(), t) && c2.as_ref().map_or(false, |c| cloud_is(c, c00.points(), c00.normals(), c00.colors(), t)), "PointCloud built from surface points / (points, normals) given in another frame is the moved cloud", d);
             }
             if !has_n && !has_c {
                 let mp: Vec<Point3> = pts.iter().map(|p| t * p).collect();
-                r.check(cloud_is(&PointCloud::from(&mp[..]), &pts, None, None, t), "PointCloud built from points given in another frame is the moved cloud", d);
+                let c0 = PointCloud::from(&pts[..]);
+                r.check(cloud_is(&PointCloud::from(&mp[..]), c0.points(), c0.normals(), c0.colors(), t), "PointCloud built from points given in another frame is the moved cloud", d);
             }
         } }
     }
@@ -1296,6 +1300,7 @@ fn w5_meshes(r: &mut Report, isos: &[I3], with_large: bool) {
     if with_large {
         meshes.push(("Mesh::create_cylinder(1.5, 4, 520) (1040 faces)".to_string(), Mesh::create_cylinder(1.5, 4.0, 520), false));
         meshes.push(("Mesh::create_cylinder(1.5, 4, 2100) (4200 faces)".to_string(), Mesh::create_cylinder(1.5, 4.0, 2100), false));
+        meshes.push(("triangle soup of Mesh::create_cylinder(1.5, 4, 520) (3120 vertices, every position 3 to 6 times)".to_string(), soup(&Mesh::create_cylinder(1.5, 4.0, 520)), false));
     }
     let extra = shifted_box(1.0, 1.0, 1.0, Vector3::new(5.0, -2.0, 0.5), false);
     for (mname, base, is_box) in meshes.iter() {
@@ -1312,6 +1317,10 @@ fn w5_meshes(r: &mut Report, isos: &[I3], with_large: bool) {
             r.check(mf.as_ref().map_or(false, |m| m.len() == nf && m.iter().zip(fnorm.iter()).all(|(a, b)| cv3(&a.into_inner(), &(t * b.into_inner())))), "Mesh::get_face_normals of the moved mesh: face normals only rotate", d);
             let mvn = moved.get_vertex_normals();
             r.check(mvn.len() == vnorm.len() && mvn.iter().zip(vnorm.iter()).all(|(a, b)| cv3(a, &(t * b))), "Mesh::get_vertex_normals of the moved mesh: vertex normals only rotate", d);
+            // the same mutator twice == the composition T.T; after T then T^-1 the mesh answers queries as before
+            let mut tw = base.clone(); tw.transform(t); tw.transform(t); let mut sq = base.clone(); sq.transform(&(t * t));
+            r.check(tw.vertices().len() == sq.vertices().len() && tw.vertices().iter().zip(sq.vertices().iter()).all(|(x, y)| cp3(x, y)) && tw.faces() == sq.faces(), "Mesh: transforming twice by T equals transforming by the composition T.T", d);
+            let mut back = moved.clone(); back.transform(&t.inverse());
             // append commutes with T
             let mut a1 = base.clone(); let ok1 = a1.append(&extra).is_ok(); a1.transform(t);
             let mut e2 = extra.clone(); e2.transform(t); let mut a2 = moved.clone(); let ok2 = a2.append(&e2).is_ok();
@@ -1327,6 +1336,7 @@ fn w5_meshes(r: &mut Report, isos: &[I3], with_large: bool) {
                 let cp = base.point_closest_to(&q);
                 r.check(cp3(&cp, &g), "Mesh::point_closest_to: 0.25 outside a face centroid of a convex mesh the closest point is that centroid", dq);
                 r.check(cp3(&moved.point_closest_to(&tq), &(t * cp)) && close(dist(&moved.point_closest_to(&tq), &tq), 0.25), "Mesh::point_closest_to commutes with T", dq);
+                r.check(cp3(&back.point_closest_to(&q), &cp) && cv3(&back.surf_closest_to(&q).normal, &base.surf_closest_to(&q).normal), "Mesh: after T then T^-1 closest-point queries answer as on the original mesh", dq);
                 let (a, b) = (base.surf_closest_to(&q), moved.surf_closest_to(&tq));
                 r.check(cp3(&b.point, &(t * a.point)) && cv3(&b.normal.into_inner(), &(t * a.normal.into_inner())), "Mesh::surf_closest_to commutes with T (point moves, normal only rotates)", dq);
                 let (a, b) = (base.measure_point_deviation(&q, DistMode::ToPlane), moved.measure_point_deviation(&tq, DistMode::ToPlane));
@@ -1386,7 +1396,7 @@ fn wave5(r: &mut Report) {
 }
 
 pub fn run() -> Option<Report> {
-    let mut r = Report::new("isometries: 19 rotations (identity, quarter turns about x/y/z, 3 more cube-group elements, 30/45 degrees about an axis, 0.7 rad about (1,2,3), (1,1,1)->x) x 4 translations (up to (1000,-500,250)) in 3D, 8 rotations x 3 translations in 2D; entities with small integer / dyadic coordinates: 3 surface points per dimension, 4 planes, 3 segments, a 4-point cloud (with/without normals and colours), 5 Distance2 (direction None / explicit / against a->b), 7 Curve2 and 7 Curve3 point lists (open, closed, force-closed, vertices spaced 0.7..1.2 tol along axes and diagonals), a 2x3x4 box mesh (solid and not) with 7 tie-free queries; 3-4 query points per entity; all comparisons to 1e-9 relative; ILL-CONDITIONED: planar_distance / scalar_projection of points 10, 40, -75 along the normal and 0, 1e-6, 1e-5, 1e-4 off the normal line (3 surface points per dimension); signed deviations (ToPoint; ToPlane on rim edges) of points 1e-7, 3e-6, 1e-5, 1e-4, 1e-3, 1e-2 off box edges / a box corner / rim edges and a rim corner of an open roof mesh with offsets oblique to the face normal (below 1e-6 only rim edges); a UV-mapped open roof mesh with 5 queries x 3 (max_dist, max_angle): uv_with_tol with Some(T), on the moved mesh, and back through uv_to_3d; all under the same 76 isometries, 1e-9 absolute; ROUND 3: 49 isometries close to the identity: TINY non-zero rotations (1e-8, 1e-7, -1e-6, 3e-6, 1e-5 rad about z / x / (1,2,3) x translations none, (0.5,-0.25,2), (1000,-500,250)) plus translations of 1e-8 with no rotation / 1e-8 rad, and 20 such in 2D, on data far from the origin (7 points with normals at radius 1e3 and one near it, a Curve3 / Curve2 there, 3 planes, meshes: box 2x3x4 at (600,0,800), its triangle soup, two touching appended boxes at (-640,0,-768), a solid box at the origin): every bulk transform (points move by the full isometry, normals only rotate, T^-1 restores, composition) and closest points on the moved mesh; all entity checks of the first part repeated under these tiny isometries; Mesh::transform on meshes with coincident vertices (triangle soups of the box and of the open roof, touching appended boxes, a box appended to itself) under all 76 isometries: vertex count kept, vertex i == T * vertex i, faces and solid flag kept, inverse, composition; point_curve2_deviation / line_surface_deviations of points 1e-7 (edge interiors only), 3e-6, 1e-5, 1e-4, 1e-3, 1e-2 off 5 outside corners / 2 open ends (offsets strictly inside the cone of the edge normals) and 4 edge interiors of a closed square and an open polyline under 7 rotations x 4 translations (up to 1e3): deviation invariant and equal to the signed distance (1e-9 absolute), reference point moves, direction rotates (1e-9 + rounding of the offset direction); Mesh::project_with_max_dist / project_with_tol (direct, Some(T), moved) / indices_in_tol for queries 0.01, 0.05, 0.2 outside the 8 corners (3 directions inside the normal cone) and 8 edges of 4 boxes (2x3x4 solid and not, 16x1x0.5, 3x3x3) with caps 0.025, 0.1, 0.5 under all 76 isometries: found exactly when the distance is within the cap, in every frame");
+    let mut r = Report::new("isometries: 19 rotations (identity, quarter turns about x/y/z, 3 more cube-group elements, 30/45 degrees about an axis, 0.7 rad about (1,2,3), (1,1,1)->x) x 4 translations (up to (1000,-500,250)) in 3D, 8 rotations x 3 translations in 2D; entities with small integer / dyadic coordinates: 3 surface points per dimension, 4 planes, 3 segments, a 4-point cloud (with/without normals and colours), 5 Distance2 (direction None / explicit / against a->b), 7 Curve2 and 7 Curve3 point lists (open, closed, force-closed, vertices spaced 0.7..1.2 tol along axes and diagonals), a 2x3x4 box mesh (solid and not) with 7 tie-free queries; 3-4 query points per entity; all comparisons to 1e-9 relative; ILL-CONDITIONED: planar_distance / scalar_projection of points 10, 40, -75 along the normal and 0, 1e-6, 1e-5, 1e-4 off the normal line (3 surface points per dimension); signed deviations (ToPoint; ToPlane on rim edges) of points 1e-7, 3e-6, 1e-5, 1e-4, 1e-3, 1e-2 off box edges / a box corner / rim edges and a rim corner of an open roof mesh with offsets oblique to the face normal (below 1e-6 only rim edges); a UV-mapped open roof mesh with 5 queries x 3 (max_dist, max_angle): uv_with_tol with Some(T), on the moved mesh, and back through uv_to_3d; all under the same 76 isometries, 1e-9 absolute; ROUND 3: 49 isometries close to the identity: TINY non-zero rotations (1e-8, 1e-7, -1e-6, 3e-6, 1e-5 rad about z / x / (1,2,3) x translations none, (0.5,-0.25,2), (1000,-500,250)) plus translations of 1e-8 with no rotation / 1e-8 rad, and 20 such in 2D, on data far from the origin (7 points with normals at radius 1e3 and one near it, a Curve3 / Curve2 there, 3 planes, meshes: box 2x3x4 at (600,0,800), its triangle soup, two touching appended boxes at (-640,0,-768), a solid box at the origin): every bulk transform (points move by the full isometry, normals only rotate, T^-1 restores, composition) and closest points on the moved mesh; all entity checks of the first part repeated under these tiny isometries; Mesh::transform on meshes with coincident vertices (triangle soups of the box and of the open roof, touching appended boxes, a box appended to itself) under all 76 isometries: vertex count kept, vertex i == T * vertex i, faces and solid flag kept, inverse, composition; point_curve2_deviation / line_surface_deviations of points 1e-7 (edge interiors only), 3e-6, 1e-5, 1e-4, 1e-3, 1e-2 off 5 outside corners / 2 open ends (offsets strictly inside the cone of the edge normals) and 4 edge interiors of a closed square and an open polyline under 7 rotations x 4 translations (up to 1e3): deviation invariant and equal to the signed distance (1e-9 absolute), reference point moves, direction rotates (1e-9 + rounding of the offset direction); Mesh::project_with_max_dist / project_with_tol (direct, Some(T), moved) / indices_in_tol for queries 0.01, 0.05, 0.2 outside the 8 corners (3 directions inside the normal cone) and 8 edges of 4 boxes (2x3x4 solid and not, 16x1x0.5, 3x3x3) with caps 0.025, 0.1, 0.5 under all 76 isometries: found exactly when the distance is within the cap, in every frame; WAVE 5: a third family of 27 motions FAR from the origin / in unusual representations (Rz90, Rx180, Rz30, 0.7 rad about (1,2,3), (1,1,1)->x, 1e-6 and 1e-8 rad about pivots at radius 500: lever arm, translation part up to 1e3; identity and a general rotation stored with the negated quaternion, an oblique half turn, 2 pi - 1e-7, a shift with -0.0 parts; 16 such in 2D) under which every entity check above is repeated; under all three families (general, near-identity, far): SurfacePoint2 shift / reversed / shift_orthogonal / rot_normal / rot_normal_90, 2D <-> 3D lifting of surface points, points, vectors and lists with an in-plane motion and its lift, owned-value operator forms (inverse, composition); Plane3::inverted_normal and the three From constructors given in another frame; Segment2 offsetted / reversed / try_new, Line2 projected_parameter / projected_point / orthogonal for segments and rays, intersection_param / intersect_rays of 3 non-parallel pairs; point lists of 0, 1, 2, 33, 65, 1001 points (2D and 3D: moved, inverse, composition), dist, mid_point, mean_point, mean_point_weighted (weights with mean 0.875), max_point_in_direction (unique extreme point, margin 1e-3), linear_interpolation_error; PointCloud of 0, 1, 2, 33, 65, 1001 points x 3 normal / colour combinations: transform, bounding box, inverse, composition, twice == T.T, merge / empty+append / create_from_indices / the three conversions commute with T; Distance2 / Distance3::new given in another frame (direction None and 3 explicit), center, reversed, Distance2::to_3d with an in-plane motion; 7 more Curve2 and 5 more Curve3 shapes (closed within the tolerance, hairpin, thin 8 x 0.5 rectangle, numbered backwards, force-closed scalene with tol 0.01, zigzags of 100 and 1500 vertices): transformed_by (count, vertices, lengths, closedness, tolerance, bounding box), from_points in another frame, stations at 4 fractions (point, length, edge, direction, normal, surface / direction point, plane), max_point_in_direction, max_dist_in_direction, ray_intersections with 3 rays (judged only when every hit is interior to an edge), inverse, composition; meshes: box 2x3x4, box 16x1x0.5 (solid), cylinders of 48, 1040 and 4200 faces, the triangle soup of the 1040-face cylinder (3120 coincident vertices): Mesh::transform (vertex i, faces, flag, inverse, composition, twice == T.T, bounding box of the moved mesh, face and vertex normals only rotate, UV map kept), append and convex_hull commute with T, queries 0.25 outside 4 face centroids (closed-form closest point) through point_closest_to / surf_closest_to / measure_point_deviation / project_with_tol (direct, Some(T), moved) and on the mesh moved back by T^-1; line_surface_deviations with None and 5 Some(interval) on 4 points: same selection and deviations in every frame");
     let i3 = isos3(); let i2 = isos2();
     surface_points3(&mut r, &i3);
     surface_points2(&mut r, &i2);
